@@ -33,7 +33,11 @@ def io_summaries(prog):
             seen.add(k)
 
     def write_many(it, fi, args, kwargs, node, self_obj):
-        it.user.setdefault('write_many', []).append((self_obj, args[0] if args else None))
+        arg = it.resolve(args[0]) if args else None
+        if isinstance(arg, GenCallV):
+            # a pipeline written as a generator function: summarised like the equivalent generator expression
+            arg = it.generator_as_iter(arg, node) or arg
+        it.user.setdefault('write_many', []).append((self_obj, arg))
         return ConstV(None)
 
     def write(it, fi, args, kwargs, node, self_obj):
